@@ -701,6 +701,18 @@ def impl_rate(game, level, obj, rates):
         return ("err", err_class(e))
 
 
+def max_dev(a, b):
+    """largest absolute difference between corresponding numbers of two snapshots of the same shape"""
+    if isinstance(a, list) and len(a) == 2 and all(isinstance(x, int) and not isinstance(x, bool) for x in a) \
+            and isinstance(b, list) and len(b) == 2 and all(isinstance(x, int) and not isinstance(x, bool) for x in b):
+        return float(abs(F(a) - F(b)))
+    if isinstance(a, list) and isinstance(b, list):
+        return max([max_dev(x, y) for x, y in zip(a, b)] or [0.0])
+    if isinstance(a, dict) and isinstance(b, dict):
+        return max([max_dev(a[k], b[k]) for k in a if k in b and k != "cols"] or [0.0])
+    return 0.0
+
+
 def kind_of(game, level):
     return "sm" if (game == "sm" and level == "set") else "base"
 
@@ -749,6 +761,7 @@ def run_rate(case, drv):
             model[k] = drv.call("c13.rate_set2", game=game, kind=kind, a=R(v[0]), b=R(v[1]), set=before)
     outs = {}
     dom = True
+    maxdev = 0.0
     for k in routes:
         st, val = impl[k]
         if st == "err":
@@ -758,6 +771,11 @@ def run_rate(case, drv):
                 detail[f"corr_{k}"] = dict(impl=impl[k], model=model[k])
             continue
         outs[k] = snap_set(game, level, val)
+        if "ok" in model[k]:
+            try:
+                maxdev = max(maxdev, max_dev(model[k]["ok"], outs[k]))
+            except Exception:
+                pass
         if "ok" not in model[k] or not drv.call("c13.close_set", eps=eps, want=model[k]["ok"], got=outs[k])["ok"]:
             agree = False
             detail[f"corr_{k}"] = dict(impl=outs[k], model=model[k])
@@ -806,7 +824,7 @@ def run_rate(case, drv):
         tags.append("all-empty")
     if any(not f["rows"] for m in before["maps"] for _, f in m["lists"]):
         tags.append("some-empty-list")
-    res = dict(claim=claim, ok=ok, agree=agree, dom=bool(dom), kf=None, tags=tags, nontrivial=nontrivial)
+    res = dict(claim=claim, ok=ok, agree=agree, dom=bool(dom), kf=None, tags=tags, nontrivial=nontrivial, maxdev=maxdev)
     if not (ok and agree):
         res["detail"] = detail
     return res
